@@ -41,7 +41,7 @@ def run(ctx):
                 "nodes: one two-output node and multi-edges), terminal nodes with and without outputs, names from a pool "
                 "sharing characters/prefixes (and all-equal names for dedup; second outputs called 'b' or like an attribute of Node / of the sub-graph proxy: payload, name, inputs, outputs, leaves, output_map, ...), crossed with copy / rename{prefix,const} / "
                 "fuse{new,inplace,linear,never callbacks} / dedup{payloads from {1,2}, inputs declared in either order} / split{all key maps} / "
-                f"expand{{outer x sub-graph x input map x output map (total, partial with same-name fallback, none) x names incl. dotted names of the expanded node, after join_namespaced, and two-level expansion}}; constants {cs}; non-trivial = the graph has "
+                f"expand{{outer x sub-graph x input map (none = by name, empty, partial, full; sources named like / unlike the inputs) x output map (total, partial with same-name fallback, none) x names incl. dotted names of the expanded node, after join_namespaced, and two-level expansion}}; constants {cs}; non-trivial = the graph has "
                 "an edge; TLC evaluates GraphSem!Post on every (case, dump of the real result objects)",
         "clauses": ["sink_terms_differ", "input_is_not_an_output_of_a_result_node", "result_has_a_cycle",
                     "name_is_not_func_of_old_name", "duplicates_left", "not_idempotent", "node_not_in_exactly_one_part",
